@@ -336,6 +336,15 @@ def classifyParse (text : String) (impl : Sexp) : Sexp :=
       else app "ok" [.atom "differs-unclassified"]
     | _, _ => app "ok" [.atom "not-compared"]
 
+/-- display texts of the `Primitive::Number` literals of a program -/
+def lits (b : PModel) : List String :=
+  ((slots b).foldl (fun acc x => let r := expLiterals x.2; (acc.1 ++ r.1, acc.2 ++ r.2)) (([], []) : List String × List String)).1
+
+/-- an integral decimal literal of large magnitude: it is printed as an INTEGER literal (`9223372036854774784.0` →
+`9223372036854774784`), so arithmetic on it becomes checked i64 arithmetic and can overflow where the decimal did not -/
+def largeIntegralFloat (t : String) : Bool :=
+  !t.toList.isEmpty && t.toList.all isDigit && decide (digitsToNat t.toList ≥ 2147483648)
+
 /-- every expression of a program, names included -/
 def allExps (b : PModel) : List PExp :=
   (slots b).map (·.2)
@@ -394,7 +403,9 @@ def oracle : List Sexp → Sexp
                   .atom (if valueChanges x.2 y.2 then "value-changes" else "tree-only"), .str x.1, .str (fmtExp x.2)]
               | none => app "violation" [.atom "format-changes-expression", .str x.1, .str (fmtExp x.2), .str (fmtExp y.2)])
             | none =>
-              if models == "differ" || models == "broke" then attributed (app "violation" [.atom ("compiled-model-" ++ models)])
+              if models == "broke" && (lits b).any largeIntegralFloat then
+                app "violation" [.atom "integral-float-printed-as-integer-overflows-integer-arithmetic"]
+              else if models == "differ" || models == "broke" then attributed (app "violation" [.atom ("compiled-model-" ++ models)])
               else if idem != "true" then attributed (app "violation" [.atom "format-not-idempotent"])
               else app "ok" [.atom models]
   | _ => app "err" [.atom "bad-request"]
